@@ -820,3 +820,26 @@ func oracleC09(s *Scenario, x *vrt.Exec, o *Obs) []vrt.Violation {
 	}
 	return out
 }
+
+// ---------------------------------------------------------------------------------------
+// C17: data races found by the vector-clock detector on the access probes
+
+var raceMode bool
+
+func raceViolations(x *vrt.Exec) []vrt.Violation {
+	var out []vrt.Violation
+	for _, rc := range x.Outcome().Races {
+		a, b := vrt.SiteKey(rc.SiteA), vrt.SiteKey(rc.SiteB)
+		if b < a {
+			a, b = b, a
+		}
+		out = append(out, vrt.Violation{Key: "race/" + rc.Loc + "/" + a + "~" + b,
+			Detail: fmt.Sprintf("%s: two goroutines access %s without synchronisation between them: %s and %s", rc.Kind, rc.Loc, rc.SiteA, rc.SiteB)})
+	}
+	for _, m := range x.Outcome().Misuse {
+		if strings.Contains(m, "WaitGroup") {
+			out = append(out, vrt.Violation{Key: "race/waitgroup-misuse/" + short(m, 60), Detail: m})
+		}
+	}
+	return out
+}
